@@ -49,6 +49,8 @@ func genReqSc(g *simrt.Tape, maxItems int) ReqSc {
 		rs.CountDelta = 1
 	case 1:
 		rs.CountDelta = -1
+	case 2:
+		rs.CountDelta = []int{-1000, -2000, 1000}[g.Draw(3)]
 	}
 	n := g.Draw(maxItems + 1)
 	for i := 0; i < n; i++ {
@@ -56,8 +58,13 @@ func genReqSc(g *simrt.Tape, maxItems int) ReqSc {
 		it.NoID = g.Draw(4) == 0
 		rs.Items = append(rs.Items, it)
 	}
-	if len(rs.Items)+rs.CountDelta < 0 {
+	if len(rs.Items)+rs.CountDelta < 0 && rs.CountDelta > -1000 {
 		rs.CountDelta = 0
+	}
+	rs.Ctx = []int{0, 0, 0, 1, 2}[g.Draw(5)]
+	if rs.Ctx == 2 && len(rs.Items) > 0 {
+		k := g.Draw(len(rs.Items))
+		rs.Items[k].Tok = "cc," + rs.Items[k].Tok
 	}
 	return rs
 }
@@ -261,7 +268,8 @@ func execC09(x *X, scAny any) {
 			i := i
 			s.Spawn(fmt.Sprintf("req%d", i), func() {
 				defer func() { done++ }()
-				resps[i] = w.exec.HandleRequest(context.Background(), buildRequest(&sc.Reqs[i], fmt.Sprintf("r%d", i)))
+				prefix := fmt.Sprintf("r%d", i)
+				resps[i] = w.exec.HandleRequest(w.requestContext(&sc.Reqs[i], prefix), buildRequest(&sc.Reqs[i], prefix))
 			})
 		}
 	} else {
@@ -373,6 +381,24 @@ func init() {
 		Config: func(any) simrt.Config { return simrt.Config{MaxSteps: 60000, IdleProbe: 4 * 1e9} },
 		Runs:   clientRuns(150000, 8000000),
 		Floors: []Floor{{Name: "all-short-batches", Count: c09FloorCount, Scenario: c09FloorScenario},
+			{Name: "extreme-counts-and-cancelled-contexts", Count: func(string) int { return 3*3*4 + 4*4*3 }, Scenario: func(_ string, i int) any {
+				if i < 36 {
+					items := []ItemSc{{Tok: "ok"}, {Tok: "et"}}[:i%3]
+					return &C09Sc{Reqs: []ReqSc{{Version: 3, Option: (i / 3) % 4, CountDelta: []int{-1000, -2000, 1000}[i/12], Items: items}}}
+				}
+				i -= 36
+				items := []ItemSc{{Tok: "ok"}, {Tok: "et"}, {Tok: "ok"}, {Tok: "pe"}}
+				rs := ReqSc{Version: 4, Option: i % 4, Ctx: 1 + (i/4)%2, Items: items}
+				if rs.Ctx == 2 {
+					k := (i / 8) % 4
+					items[k].Tok = "cc," + items[k].Tok
+				}
+				if i/32 == 1 {
+					rs.Ctx = 1
+					rs.Items = items[:i%3]
+				}
+				return &C09Sc{Reqs: []ReqSc{rs}}
+			}},
 			{Name: "header-elements", Count: func(string) int { return len(allHdrs()) * 4 }, Scenario: func(_ string, i int) any {
 				hs := allHdrs()
 				return &C09Sc{Reqs: []ReqSc{{Version: 2 + i%3, Option: (i / len(hs)) % 4, Hdr: hs[i%len(hs)], Items: []ItemSc{{Tok: "ok"}, {Tok: "et"}, {Tok: "ok"}, {Tok: "pe"}}}}}
